@@ -27,7 +27,7 @@ func TestVerifSim(t *testing.T) {
 			"byte stream between exporter and importer: in-memory, owned by the simulator",
 			"disk: in-memory FS; crash = CrashClone at a WAL-sync boundary or at an importer read",
 		},
-		Rule: "each run builds a random source store (1-4 channels in the exported hash slot + 1-2 in another; exact/plain appends, uncommitted suffixes, stored checkpoints at or below the exported cut, cuts up to the log end, retention trims, suffix truncation, epochs, cursors; random typed metadata incl. rows of tables excluded from backups), exports both slots with the real exporters, restores into a fresh (optionally pre-populated) node and judges the result (model, typed metadata reads against the source, byte-identical re-export, continuation at the watermark), then injects one scenario: none (second import, restore over an older generation of the slot, discard back to the raw pre-import state) / crash at every (<=8 commits) or sampled WAL-sync boundary, or at an importer read, each image reopened and retried / 1-5 corrupted, truncated or mismatched streams / short reads / a stream I/O error followed by cleanup and retry. One run in three lets retention trim under an uncommitted tail. Non-trivial = the export carried at least one message row and one metadata row and the scenario's fault (if any) actually fired.",
+		Rule: "each run builds a random source store (1-4 channels in the exported hash slot + 1-2 in another; exact/plain appends, uncommitted suffixes, stored checkpoints at or below the exported cut, cuts up to the log end, retention trims, suffix truncation, epochs, cursors; random typed metadata incl. rows of tables excluded from backups), exports both slots with the real exporters, restores into a fresh (optionally pre-populated) node and judges the result (model, typed metadata reads against the source, byte-identical re-export, continuation at the watermark, power-loss image taken at the instant the restore was acknowledged = acknowledged state; one run in five pads the metadata stream to exactly 1023/1024/1025/2047/2048/2049 entries and half of the big-channel runs freeze the channel at those row counts, i.e. on and next to the importers' batch boundaries), then injects one scenario: none (second import, restore over an older generation of the slot, discard back to the raw pre-import state) / crash at every (<=8 commits) or sampled WAL-sync boundary, or at an importer read, each image reopened and retried / 1-5 corrupted, truncated or mismatched streams / short reads / a stream I/O error followed by cleanup and retry. One run in three lets retention trim under an uncommitted tail. Non-trivial = the export carried at least one message row and one metadata row and the scenario's fault (if any) actually fired.",
 		Assumptions: []string{
 			"Pebble and its MemFS crash model are trusted; crash clones keep either all (process kill) or none (power loss) of the unsynced bytes because MemFS.CrashClone is not reproducible for intermediate percentages",
 			"WAL-sync crash ordinals are only used when the import fits the first memtable (no WAL rotation); larger imports crash at importer reads, i.e. between commits",
@@ -72,6 +72,8 @@ type harness struct {
 	rows   int
 	big    bool
 	early  *exportSet // an older backup of slot A, taken while the source was still being written
+	// metaEntries is the number of key/value records in slot A's metadata stream.
+	metaEntries uint64
 }
 
 func (h *harness) track(n *node) *node {
@@ -157,6 +159,14 @@ func runC11(t *testing.T, r *simkit.Run) {
 		sc = scenario(tp.Weighted([]int{3, 0, 4, 1, 1, 4}))
 	}
 	h.big = big
+	// Importer batch boundaries (1024 entries per metadata batch, 1024 rows per message
+	// batch and cleanup page): place the exported counts exactly on and next to them.
+	metaTarget := []int{0, 1023, 1024, 1025, 2047, 2048, 2049}[tp.Weighted([]int{30, 1, 2, 1, 1, 2, 1})]
+	bigRows := 0
+	if big {
+		bigRows = []int{0, 1023, 1024, 1025, 2047, 2048, 2049}[tp.Weighted([]int{4, 1, 2, 1, 1, 1, 1})]
+	}
+	r.Config["meta_entries"], r.Config["big_rows"] = metaTarget, bigRows
 	tailTrim := tp.Chance(1, 3)
 	r.Config["tail_trim"] = tailTrim
 	r.Config["slot"] = h.slotA
@@ -193,7 +203,14 @@ func runC11(t *testing.T, r *simkit.Run) {
 		// one channel of the exported slot gets more rows than one import batch / cleanup page (1024)
 		c := h.b.chans[0]
 		c.Exact = true
-		for _, n := range []int{400 + tp.Intn(100), 400 + tp.Intn(100), 300 + tp.Intn(100)} {
+		parts := []int{400 + tp.Intn(100), 400 + tp.Intn(100), 300 + tp.Intn(100)}
+		if bigRows > 0 {
+			// exactly bigRows committed rows, all exported (no later operation touches the channel)
+			parts = []int{bigRows / 3, bigRows / 3, bigRows - 2*(bigRows/3)}
+			c.Frozen = true
+			r.Logf("src %s frozen at exactly %d committed rows", c.Key, bigRows)
+		}
+		for _, n := range parts {
 			if !h.b.appendOp(c, n, true, false) {
 				return
 			}
@@ -237,6 +254,9 @@ func runC11(t *testing.T, r *simkit.Run) {
 			metaStep(r, src.meta.MetaDB(), slot, h.pools, di)
 		}
 		r.Steps++
+	}
+	if metaTarget > 0 && !h.padMeta(metaTarget) {
+		return
 	}
 	h.b.chooseCuts()
 	h.b.closeChannels()
@@ -290,6 +310,8 @@ func runC11(t *testing.T, r *simkit.Run) {
 		r.Failf("restore.failed", "fault-free restore of hash slot %d failed: %v", h.slotA, err)
 		return
 	}
+	// the restore has been acknowledged: what a power loss at this instant leaves on disk
+	ackImage := crashClone(refGate.mem, false)
 	r.Logf("reference restore ok wal-syncs=%d", nSyncs)
 	if rotations > 0 {
 		r.Probe("import.wal_rotated")
@@ -306,6 +328,23 @@ func runC11(t *testing.T, r *simkit.Run) {
 	r.State("ref", len(refDump.msg.kvs), len(refDump.meta.kvs), nSyncs)
 	if h.rows > 0 && len(h.obsA) > 0 {
 		r.Nontrivial = true
+	}
+
+	// ---- an acknowledged restore is durable: power loss right after it returned, nobody retries ----
+	ackDump, err := dumpDisk(ackImage)
+	if err != nil {
+		r.FailSig("restore.not_durable", "reopen", fmt.Sprintf("the node does not reopen after a power loss that follows an acknowledged restore: %v", err), nil)
+		return
+	}
+	r.Fault("crash.power_loss_after_ack")
+	if d := diffNode(refDump, ackDump); d != "" {
+		r.FailSig("restore.not_durable", "power-loss-after-ack",
+			fmt.Sprintf("the restore returned success (metadata entries=%d, message rows=%d) but a power loss right afterwards loses part of it: %s (left = acknowledged state, right = after the crash)", h.metaEntries, h.rows, d), nil)
+		return
+	}
+	r.Probe("restore.durable_after_ack")
+	if (metaTarget > 0 || tp.Chance(1, 6)) && !h.restoreThroughWriter(pre, refDump) {
+		return
 	}
 
 	// ---- the scenario ----------------------------------------------------------------
@@ -428,6 +467,18 @@ func (h *harness) exportAll(split bool) bool {
 		if slot == h.slotA {
 			h.expA = e
 			h.rows = int(wantRows)
+			h.metaEntries = metaEntryCount(e.meta)
+			r.Logf("export slot=%d metadata entries=%d", slot, h.metaEntries)
+			if h.metaEntries > 0 && h.metaEntries%1024 == 0 {
+				r.Probe("export.meta_entries_on_batch_boundary")
+			}
+			if wantRows > 0 {
+				for _, c := range cs {
+					if n := c.CutHW - c.Trimmed; n > 0 && n%1024 == 0 {
+						r.Probe("export.channel_rows_on_batch_boundary")
+					}
+				}
+			}
 			if len(e.msg) > 64<<10 {
 				r.Probe("export.multi_buffer_stream")
 			}
